@@ -160,15 +160,24 @@ def styleOf (s : String) : Option Style :=
 
 def cycleOut (st : Style) (v : Value) : String :=
   match parse (print st v) with
-  | .ok v1 => "ok:" ++ venc v1 ++ " " ++ (parse (print st v1)).enc
-  | .err => "err -"
-  | .panic => "panic -"
+  | .ok v1 =>
+    let s1 := "ok:" ++ venc v1
+    let s2 := (parse (print st v1)).enc
+    (if s1 == s2 then "stable " else "changed ") ++ s1 ++ " " ++ s2
+  | .err => "unparsed err -"
+  | .panic => "panicked panic -"
+
+def parseOut (r : Res Value) : String :=
+  match r with
+  | .ok v => "ok ok:" ++ venc v
+  | .err => "err err"
+  | .panic => "panic panic"
 
 def apiLine (line : String) : String :=
   match words line with
   | ["print", s, e] =>
     match styleOf s, vdec e with
-    | some st, some v => hexOfChars (print st v)
+    | some st, some v => "text " ++ hexOfChars (print st v)
     | _, _ => "bad-op"
   | ["cycle", s, e] =>
     match styleOf s, vdec e with
@@ -176,8 +185,8 @@ def apiLine (line : String) : String :=
     | _, _ => "bad-op"
   | ["parse", h] =>
     match charsOfHex h with
-    | some cs => (parse cs).enc
-    | none => "err"
+    | some cs => parseOut (parse cs)
+    | none => "err err"
   | _ => "-"
 
 /-! ## monitor -/
@@ -314,7 +323,7 @@ def Mon.step (m : Mon) (op out : String) : Mon × Option String :=
   match ws with
   | ["cycle", _, e] =>
     match vdec e, words out with
-    | some v, [r1, r2] =>
+    | some v, [_, r1, r2] =>
       let sh := v.shape
       if sh.nonFinite then (m, none) else
       match resDec r1 with
